@@ -108,4 +108,95 @@ FreshVal(str, t, call) == PenU(str, call.c, t, call.e, call.n)
 
 \* BaseRegularizer: strength * cost
 BaseVal(s, c) == s * c
+
+(***************************************************************************)
+(* Attribute life cycle of BOTH regulariser classes.  A regulariser keeps  *)
+(* its configuration in public attributes (BaseRegularizer: cost_name,     *)
+(* strength; DUCCIO: targets, final_strengths) which user code re-assigns  *)
+(* or updates in place between applications (strength schedules, switching *)
+(* a term off with 0, moving a target).  Every application must be the     *)
+(* formula over the CURRENT public attributes and the CURRENT cost the     *)
+(* model reports - nothing captured at construction, nothing remembered    *)
+(* from an earlier application.                                            *)
+(* An action is a record [op, k, v] (k a string, v an integer):            *)
+(*  base   : setS/float|int|zero|tensor v   reg.strength = v (units; a new *)
+(*                                           0-d tensor for "tensor")      *)
+(*           inplace/fill v                  reg.strength.fill_(v)  (only  *)
+(*                                           if the attribute is a tensor) *)
+(*           inplace/ext v                   the caller updates in place   *)
+(*                                           the tensor it passed to the   *)
+(*                                           constructor (only while the   *)
+(*                                           attribute still is that one)  *)
+(*           name/m0|m1                      reg.cost_name = ...           *)
+(*  duccio : setT/new k     reg.targets = a new dict (target set k)        *)
+(*           mutT/m0|m1 v   reg.targets[name] = tensor(v)  (dict mutated)  *)
+(*           fillT/m0|m1 v  reg.targets[name].fill_(v)     (tensor updated)*)
+(*           setF/new k     reg.final_strengths = a new tuple (set k)      *)
+(*           setF/m0|m1 v   ... = the tuple with one entry replaced        *)
+(*           fillF/m0|m1 v  reg.final_strengths[i].fill_(v)                *)
+(*  both   : apply/dflt|e1n4   reg(model) / reg(model, 1, 4) (base: plain) *)
+(*           cost/A|B          the model now reports cost vector A / B     *)
+(* State: [kind, name, s, isT, ctor, t, f, cost, n, val, c0 (attributes at *)
+(* construction), lc (cost seen by the first application)].                *)
+(***************************************************************************)
+A(op, k, v) == [op |-> op, k |-> k, v |-> v]
+CostVec(k)  == IF k = "A" THEN <<7, 20>> ELSE <<12, 5>>
+TargetSet(k) == IF k = 1 THEN <<10, 20>> ELSE <<6, 30>>
+StrengthSet(k) == IF k = 1 THEN <<10000, 20000>> ELSE <<20000, 10000>>
+Idx(nm) == IF nm = "m0" THEN 1 ELSE 2
+
+BaseActions ==
+    {A("setS", "float", 3), A("setS", "float", 1024), A("setS", "int", 0), A("setS", "int", 2048),
+     A("setS", "zero", 0), A("setS", "tensor", 5), A("inplace", "fill", 7), A("inplace", "ext", 9),
+     A("name", "m0", 0), A("name", "m1", 0), A("apply", "dflt", 0), A("cost", "A", 0), A("cost", "B", 0)}
+DuccioActions ==
+    {A("setT", "new", 2), A("mutT", "m0", 5), A("mutT", "m1", 3), A("fillT", "m0", 11),
+     A("setF", "new", 2), A("setF", "m0", 40000), A("fillF", "m1", 10000),
+     A("apply", "dflt", 0), A("apply", "e1n4", 0), A("cost", "A", 0), A("cost", "B", 0),
+     A("setT", "new", 1), A("fillF", "m0", 30000)}
+
+\* variant: "float" | "tensor" (how the strength was passed to BaseRegularizer) | "duccio"
+AttrInit(variant) ==
+    LET base == variant # "duccio"
+        s0   == IF variant = "tensor" THEN 5 ELSE 3
+    IN  [kind |-> IF base THEN "base" ELSE "duccio", name |-> "m0", s |-> s0,
+         isT |-> variant = "tensor", ctor |-> variant = "tensor",
+         t |-> TargetSet(1), f |-> StrengthSet(1), cost |-> CostVec("A"), n |-> 0, val |-> 0,
+         c0 |-> [s |-> s0, name |-> "m0", t |-> TargetSet(1), f |-> StrengthSet(1)], lc |-> <<>>]
+
+AttrEnabled(st, a) ==
+    /\ (st.kind = "base" => a \in BaseActions) /\ (st.kind = "duccio" => a \in DuccioActions)
+    /\ (a.op = "inplace" /\ a.k = "fill" => st.isT)
+    /\ (a.op = "inplace" /\ a.k = "ext" => st.ctor)
+
+Sched(k) == IF k = "e1n4" THEN <<1, 4>> ELSE <<1, 1>>
+
+\* the value an application returns: impl "live" (as specified), "captured" (configuration captured
+\* at construction), "lastcost" (model cost remembered from the first application)
+AttrValue(impl, st, k) ==
+    LET cost == IF impl = "lastcost" /\ st.lc # <<>> THEN st.lc ELSE st.cost
+        s    == IF impl = "captured" THEN st.c0.s ELSE st.s
+        nm   == IF impl = "captured" THEN st.c0.name ELSE st.name
+        t    == IF impl = "captured" THEN st.c0.t ELSE st.t
+        f    == IF impl = "captured" THEN st.c0.f ELSE st.f
+    IN  IF st.kind = "base" THEN BaseVal(s, cost[Idx(nm)])
+        ELSE PenU([i \in 1..2 |-> Fin(f[i])], cost, t, Sched(k)[1], Sched(k)[2])
+
+AttrStep(impl, st, a) ==
+    CASE a.op = "setS"    -> [st EXCEPT !.s = a.v, !.isT = (a.k = "tensor"), !.ctor = FALSE]
+      [] a.op = "inplace" -> [st EXCEPT !.s = a.v]
+      [] a.op = "name"    -> [st EXCEPT !.name = a.k]
+      [] a.op = "setT"    -> [st EXCEPT !.t = TargetSet(a.v)]
+      [] a.op = "mutT"    -> [st EXCEPT !.t[Idx(a.k)] = a.v]
+      [] a.op = "fillT"   -> [st EXCEPT !.t[Idx(a.k)] = a.v]
+      [] a.op = "setF"    -> IF a.k = "new" THEN [st EXCEPT !.f = StrengthSet(a.v)]
+                             ELSE [st EXCEPT !.f[Idx(a.k)] = a.v]
+      [] a.op = "fillF"   -> [st EXCEPT !.f[Idx(a.k)] = a.v]
+      [] a.op = "cost"    -> [st EXCEPT !.cost = CostVec(a.k)]
+      [] a.op = "apply"   -> [st EXCEPT !.val = AttrValue(impl, st, a.k), !.n = @ + 1,
+                                        !.lc = IF st.lc = <<>> THEN st.cost ELSE st.lc]
+
+RECURSIVE AttrRun(_, _, _, _)
+AttrRun(impl, st, hist, i) ==
+    IF i > Len(hist) THEN st ELSE AttrRun(impl, AttrStep(impl, st, hist[i]), hist, i + 1)
 =============================================================================
